@@ -217,7 +217,7 @@ def replay_c15(cex, d):
         if ob.startswith('COPY-array'):
             n, k = int(fx['n']), int(fx['k'])
             if max(n, k) > 5000:
-                return {'reproduced': False, 'detail': 'too large'}
+                return {'reproduced': False, 'skip': True, 'detail': 'too large'}
             atom = tuple(fx['atom'])
             md = {'a': {'b': [1, 2, {'c': None}]}, 'z': 'é'} if fx['withmeta'] else None
             orig = rp.values(np_, n, atom, fx['numtype'], fx['bo'])
@@ -264,7 +264,7 @@ def replay_c15(cex, d):
             K = int(fx['K'])
             lens = [int(fx[f'l{i + 1}']) for i in range(K)]
             if max(lens + [0]) > 3000:
-                return {'reproduced': False, 'detail': 'too large'}
+                return {'reproduced': False, 'skip': True, 'detail': 'too large'}
             atom = tuple(fx['atom'])
             dt = np_.dtype(fx['numtype']).newbyteorder('<' if fx['bo'] == 'little' else '>')
             subs = [rp.values(np_, l, atom, fx['numtype'], fx['bo'], 1 + 7 * i) for i, l in enumerate(lens)]
